@@ -166,6 +166,26 @@ def r11_3(ctx):
             cfg.must_pass([cfg.entry], temps, [saves[0][0]])[0]
     ctx.ob('R11.3', 'Supervisor.body:limiter-restored-after-burst', ok, sb, None,
            'prev = pool.restart_state ... pool.restart_state = prev before the steady-state loop')
+    # The result handler must be handed the pool's *own* limiter (on_ack resets that object).  Pool.__init__ starts
+    # the supervisor thread; either the limiter is handed over before that start, or the supervisor's first write of
+    # pool.restart_state is preceded by its start-up grace sleep (the design of the current tree).
+    pi = m.func('pool:Pool.__init__')
+    starts = [n for (n, c) in q.calls(pi, 'self._worker_handler.start')]
+    hand = [n for (n, c) in q.calls(pi, 'self.create_result_handler')]
+    q.need(starts and hand, 'Pool.__init__: supervisor start / result handler construction not found')
+    before = not any(pi.cfg.reach([s.id], include_src=False, skip_labels=('x',)) & {h.id for h in hand} for s in starts)
+    writes = [dn for (dn, t, v) in q.assigns(sb, 'self.pool.restart_state')]
+    sleeps = [n for (n, c) in q.calls(sb, 'time.sleep')
+              if c.args and isinstance(c.args[0], ast.Constant) and isinstance(c.args[0].value, (int, float))
+              and c.args[0].value > 0]
+    graced = bool(writes) and cfg.must_pass([cfg.entry], writes, sleeps, skip_labels=('x',))[0]
+    ctx.ob('R11.3', 'limiter-handed-over-before-the-supervisor-swaps-it', before or graced, sb,
+           writes[0] if writes else None,
+           'the supervisor\'s start-up sleep precedes its first write of pool.restart_state' if graced else
+           'the limiter is read before the supervisor starts' if before else
+           'Pool.__init__ starts the supervisor before it hands self.restart_state to the result handler, and the '
+           'supervisor installs the burst limiter at once: accepted jobs then reset the discarded burst limiter, '
+           'never the pool\'s own')
 
 
 def r11_4(ctx):
@@ -202,6 +222,10 @@ def run(ctx):
 _P = 'billiard/pool.py'
 _C = 'billiard/common.py'
 MUTANTS = [
+    ('burst-limiter-installed-at-once', _P, "        debug('worker handler starting')\n\n        time.sleep(0.8)\n\n        pool = self.pool\n",
+     "        debug('worker handler starting')\n\n        pool = self.pool\n", 'R11.3'),
+    ('grace-sleep-after-the-swap', _P, "        time.sleep(0.8)\n\n        pool = self.pool\n\n        try:\n            # do a burst at startup to verify that we can start\n            # our pool processes, and in that time we lower\n            # the max restart frequency.\n            prev_state = pool.restart_state\n            pool.restart_state = restart_state(10 * pool._processes, 1)\n",
+     "        pool = self.pool\n\n        try:\n            prev_state = pool.restart_state\n            pool.restart_state = restart_state(10 * pool._processes, 1)\n            time.sleep(0.8)\n", 'R11.3'),
     ('recycle-consumes-budget', _P, "                if exitcodes and exitcodes[i] not in (EX_OK, EX_RECYCLE):\n                    self.restart_state.step()",
      "                if exitcodes and exitcodes[i] not in (EX_OK,):\n                    self.restart_state.step()", 'R11.1'),
     ('limiter-after-fork', _P, "            try:\n                if exitcodes and exitcodes[i] not in (EX_OK, EX_RECYCLE):\n                    self.restart_state.step()\n            except IndexError:\n                self.restart_state.step()\n            self._create_worker_process(self._avail_index())\n",
@@ -226,6 +250,9 @@ MUTANTS = [
     ('burst-one-tick', _P, "            for _ in range(10):\n                if self._state == RUN and pool._state == RUN:", "            for _ in range(1):\n                if self._state == RUN and pool._state == RUN:", 'R11.4'),
 ]
 TWINS = [
+    ('longer-grace-sleep', _P, "        debug('worker handler starting')\n\n        time.sleep(0.8)\n", "        debug('worker handler starting')\n\n        time.sleep(1.0)\n"),
+    ('extra-sleep-after-the-swap', _P, "            pool.restart_state = restart_state(10 * pool._processes, 1)\n",
+     "            pool.restart_state = restart_state(10 * pool._processes, 1)\n            time.sleep(0.1)\n"),
     ('expiry-gt', _C, "        if self.T and now - self.T >= self.maxT:", "        if self.T and now - self.T > self.maxT:"),
     ('raise-flipped', _C, "        elif self.maxR and self.R >= self.maxR:", "        elif self.maxR and self.maxR <= self.R:"),
     ('window-restart-two-stmts', _C, "            self.T, self.R = now, 0\n", "            self.T = now\n            self.R = 0\n"),
